@@ -15,6 +15,8 @@ pub trait AddObj: Clone + PartialEq + Send {
     /// (both optionally interrupted). false = the wrapper returned an error (C11 owns that verdict; the stream is abandoned).
     fn enc_io(&mut self, d: &mut [u8], cuts: u32, intr: bool) -> bool;
     fn dec_io(&mut self, d: &mut [u8], cuts: u32, intr: bool) -> bool;
+    /// overwrite both halves in place (through the accessors) with Clone::clone_from of the halves of `src`
+    fn clone_halves_from(&mut self, src: &mut Self);
 }
 
 macro_rules! typed_impl {
@@ -63,6 +65,10 @@ macro_rules! typed_impl {
                 *b = w.sink.get(i).copied().unwrap_or(!*b);
             }
             true
+        }
+        fn clone_halves_from(&mut self, src: &mut Self) {
+            self.encrypter().clone_from(src.encrypter());
+            self.decrypter().clone_from(src.decrypter());
         }
         fn dec_io(&mut self, d: &mut [u8], cuts: u32, intr: bool) -> bool {
             let src = d.to_vec();
@@ -243,6 +249,42 @@ fn add_stream<O: AddObj>(
     model_enc.enc(&mut want);
     let mut wire = plain.to_vec();
     let replay = format!("stream {} {} {}", hex(k), pseed, plain.len());
+    if pseed % 7 == 3 {
+        // both ends are moved into objects that were in use for another connection (another key, another position): an
+        // in-place overwrite through Clone::clone_from, as Vec::clone_from / Option::clone_from / pooled objects do
+        let r = guard(|| {
+            let mut k2 = *k;
+            k2.reverse();
+            k2[0] ^= 0x5a;
+            let (mut o1, mut o2) = (kind.pair)(k2);
+            let mut junk = [0x33u8; 23];
+            o1.enc(&mut junk);
+            o1.dec(&mut junk);
+            o2.enc(&mut junk);
+            o2.dec(&mut junk);
+            if pseed % 14 == 3 {
+                o1.clone_from(sender);
+                o2.clone_from(receiver);
+            } else {
+                o1.clone_halves_from(sender);
+                o2.clone_halves_from(receiver);
+            }
+            let same = o1 == *sender && o2 == *receiver;
+            *sender = o1;
+            *receiver = o2;
+            same
+        });
+        rep.count("objects_overwritten_in_place_by_clone_from", 2);
+        match r {
+            Ok(true) => {}
+            // `==` may look at scratch fields; what counts is how the copy behaves from here on (compared with the model below)
+            Ok(false) => rep.count("info_clone_from_copy_not_eq_to_source", 1),
+            Err(e) => {
+                rep.violation(&format!("{}:panic:clone_from", kind.prop), e, replay);
+                return false;
+            }
+        }
+    }
     // header-sized chunks take turns: raw call, typed helper, Write wrapper with a sink that takes short writes
     let mut route = (pseed % 3) as u32;
     let mut io_err = 0u64;
@@ -495,6 +537,46 @@ distinct (key class, length class) stream cells",
                     rep.cell(&[9, 32]);
                 }
             }
+            // one single call with more than 2^31 bytes (thorough tier, second key): a length that no longer fits a signed
+            // 32-bit quantity, followed by ordinary traffic on the same connection
+            if tier == "thorough" && which == 1 && okay {
+                let n = (1usize << 31) + 4096 + rng.below(64) as usize;
+                let plain = rng.bytes(n);
+                let mut want = plain.clone();
+                model.enc(&mut want);
+                let mut wire = plain.clone();
+                let r = guard(|| {
+                    client.enc(&mut wire);
+                });
+                rep.ev(1);
+                let replay = format!("stream {} 0 {}", hex(&k), n);
+                if let Err(e) = r {
+                    rep.violation(&format!("{}:panic:encrypt", kind_ref.prop), format!("one call with {} bytes panicked: {}", n, e), replay);
+                    okay = false;
+                } else if let Some(i) = first_diff(&wire, &want) {
+                    rep.violation(&format!("{}:ciphertext_differs_from_recurrence:single_call_above_2^31", kind_ref.prop), format!("byte {} of one {}-byte call differs from the recurrence", i, n), replay);
+                    okay = false;
+                } else {
+                    drop(want);
+                    let r = guard(|| {
+                        server.dec(&mut wire);
+                    });
+                    if r.is_err() || wire != plain {
+                        rep.violation(&format!("{}:receiver_does_not_recover_plaintext:single_call_above_2^31", kind_ref.prop), format!("one decrypt call with {} bytes does not recover the plaintext", n), replay);
+                        okay = false;
+                    }
+                }
+                drop(wire);
+                drop(plain);
+                if okay {
+                    // the connection goes on
+                    let more = rng.bytes(300);
+                    let ps = rng.next();
+                    okay = add_stream(kind_ref, &mut rep, &k, &more, &mut client, &mut server, &mut model, ps, "after_single_call_above_2^31");
+                    rep.count("single_calls_above_2^31_bytes", 1);
+                    rep.cell(&[9, 31]);
+                }
+            }
             // the same connection also runs server -> client
             let back: Vec<u8> = rng.bytes(5000);
             let mut m2 = ModelAdd::new(&mkey);
@@ -624,6 +706,40 @@ distinct (key class, length class) stream cells",
                 rep.cell(&[7, 7]);
             }
         }
+        // a handful of session keys come back again and again on this thread, in changing order (reconnecting players):
+        // every new connection is keyed by its own session key, whatever was connected before
+        if nkeys >= 100 {
+            let pool: Vec<[u8; 40]> = (0..7).map(|_| rng.arr()).collect();
+            for visit in 0..(if nkeys >= 1000 { 120 } else { 20 }) {
+                let k = pool[match visit % 5 {
+                    0 => 0,
+                    1 => 1,
+                    2 => 0,
+                    _ => rng.below(7) as usize,
+                }];
+                let mkey = (kind_ref.model_key)(&k);
+                let (mut client, mut server) = match guard(|| (kind_ref.pair)(k)) {
+                    Ok(p) => p,
+                    Err(e) => {
+                        rep.violation(&format!("{}:panic:construct", kind_ref.prop), e, format!("stream {} 0 0", hex(&k)));
+                        break;
+                    }
+                };
+                let mut m1 = ModelAdd::new(&mkey);
+                let mut m2 = ModelAdd::new(&mkey);
+                let pl = 24 + rng.below(20) as usize;
+                let plain = rng.bytes(pl);
+                let (ps, ps2) = (rng.next(), rng.next());
+                let a = add_stream(kind_ref, &mut rep, &k, &plain, &mut client, &mut server, &mut m1, ps, "session_keys_coming_back");
+                let b = add_stream(kind_ref, &mut rep, &k, &plain, &mut server, &mut client, &mut m2, ps2, "session_keys_coming_back");
+                rep.ev(2);
+                rep.count("connections_with_a_session_key_seen_before_on_the_thread", 1);
+                if !(a && b) {
+                    break;
+                }
+            }
+            rep.cell(&[9, 9]);
+        }
         // one connection used through very many tiny calls (more than 2^16 calls per direction)
         if sh % 16 == 3 && nkeys >= 1000 {
             let k: [u8; 40] = rng.arr();
@@ -708,12 +824,13 @@ struct WRoute {
     salt: u32,
     io_calls: u64,
     typed_calls: u64,
+    attempt_then_raw: u64,
     io_failed: bool,
 }
 
 impl WRoute {
     fn new(salt: u64) -> Self {
-        Self { n: (salt % 3) as u32, salt: (salt >> 9) as u32, io_calls: 0, typed_calls: 0, io_failed: false }
+        Self { n: (salt % 3) as u32, salt: (salt >> 9) as u32, io_calls: 0, typed_calls: 0, attempt_then_raw: 0, io_failed: false }
     }
     fn next(&mut self) -> (u32, u32, bool) {
         self.n = (self.n + 1) % 3;
@@ -809,14 +926,43 @@ impl WRoute {
             _ => o.encrypt(c),
         }
     }
-    fn client_dec(&mut self, o: &mut wrath_header::ClientCrypto, c: &mut [u8], plain_shape: bool) {
+    fn client_dec(&mut self, o: &mut wrath_header::ClientCrypto, c: &mut [u8], plain_shape: bool, first4: Option<[u8; 4]>) {
         // the receiver cannot know the shape from ciphertext; the caller tells whether the sender's chunking produced a
         // header-shaped plaintext here (only then the read-based call consumes exactly this chunk)
         if !plain_shape || self.io_failed {
             return o.decrypt(c);
         }
         match self.next() {
-            (2, cuts, intr) | (1, cuts, intr) => {
+            (1, _, _) => {
+                // the two-step route; every other time the byte after the 4-byte attempt is taken by the raw call instead of
+                // decrypt_large_server_header (one keystream per direction, whatever call consumes it)
+                self.typed_calls += 1;
+                match o.attempt_decrypt_server_header([c[0], c[1], c[2], c[3]]) {
+                    wrath_header::WrathServerAttempt::Header(h) => {
+                        let l = crate::c10::layout(h.size, h.opcode);
+                        for (i, b) in c.iter_mut().enumerate() {
+                            *b = l.get(i).copied().unwrap_or(!*b);
+                        }
+                    }
+                    wrath_header::WrathServerAttempt::AdditionalByteRequired => {
+                        if c.len() < 5 {
+                            c[0] = !c[0]; // a fifth byte is asked for a 4-byte header: shows up as a plaintext difference
+                        } else if self.salt & 1 == 0 {
+                            let h = o.decrypt_large_server_header(c[4]);
+                            let l = crate::c10::layout(h.size, h.opcode);
+                            c.copy_from_slice(&l[..5]);
+                        } else {
+                            self.attempt_then_raw += 1;
+                            o.decrypt(&mut c[4..5]);
+                            // the first four plaintext bytes stay inside the object on this route; they are checked on the others
+                            if let Some(p) = first4 {
+                                c[..4].copy_from_slice(&p);
+                            }
+                        }
+                    }
+                }
+            }
+            (2, cuts, intr) => {
                 self.io_calls += 1;
                 let src = c.to_vec();
                 let mut rd = FragReader::new(&src, src.len(), cuts, intr, Fail::Eof);
@@ -942,6 +1088,41 @@ fn wrath_connection(rep: &mut Rep, k: [u8; 40], rng: &mut Rng, total_len: usize,
         if total_len < 100_000 && rng.chance(1, 8) {
             other_module_noise(rng);
         }
+        if total_len < 100_000 && rng.chance(1, 9) {
+            // both ends move into objects that served another connection: in-place overwrite through Clone::clone_from
+            let r = guard(|| {
+                let mut k2 = k;
+                k2.reverse();
+                k2[3] ^= 0xa5;
+                let (mut c2, mut s2) = objs::wrath_pair(k2);
+                let mut junk = [0x44u8; 19];
+                c2.encrypt(&mut junk);
+                c2.decrypt(&mut junk);
+                s2.encrypt(&mut junk);
+                s2.decrypt(&mut junk);
+                if rng.chance(1, 2) {
+                    c2.clone_from(&client);
+                    s2.clone_from(&server);
+                } else {
+                    c2.encrypter().clone_from(client.encrypter());
+                    c2.decrypter().clone_from(client.decrypter());
+                    s2.encrypter().clone_from(server.encrypter());
+                    s2.decrypter().clone_from(server.decrypter());
+                }
+                (c2, s2)
+            });
+            match r {
+                Ok((c2, s2)) => {
+                    client = c2;
+                    server = s2;
+                    rep.count("objects_overwritten_in_place_by_clone_from", 2);
+                }
+                Err(e) => {
+                    rep.violation("c09:panic:clone_from", e, format!("stream {} 0 64 c2s", hex(&k)));
+                    return;
+                }
+            }
+        }
         let len = (1 + rng.below(if total_len > (1 << 30) { 32 << 20 } else if total_len > 1000 { 40000 } else { 300 }) as usize).min(left);
         left -= len;
         let plain = rng.bytes(len);
@@ -970,9 +1151,11 @@ fn wrath_connection(rep: &mut Rep, k: [u8; 40], rng: &mut Rng, total_len: usize,
                 &plain,
                 |c| rt.borrow_mut().server_enc(&mut server, c),
                 |c| {
-                    let shape = WRoute::server_shape(&plain[doff..doff + c.len()]).is_some();
+                    let pc = &plain[doff..doff + c.len()];
+                    let shape = WRoute::server_shape(pc).is_some();
+                    let first4 = if pc.len() >= 4 { Some([pc[0], pc[1], pc[2], pc[3]]) } else { None };
                     doff += c.len();
-                    rt.borrow_mut().client_dec(&mut client, c, shape)
+                    rt.borrow_mut().client_dec(&mut client, c, shape, first4)
                 },
                 &mut m_s2c,
                 ps,
@@ -985,6 +1168,7 @@ fn wrath_connection(rep: &mut Rep, k: [u8; 40], rng: &mut Rng, total_len: usize,
         };
         rep.count("header_shaped_chunks_through_typed_helpers", rt.borrow().typed_calls);
         rep.count("header_shaped_chunks_through_read_write_wrappers", rt.borrow().io_calls);
+        rep.count("fifth_byte_after_attempt_taken_by_the_raw_call", rt.borrow().attempt_then_raw);
         rep.ev(1);
         if !ok {
             return;
@@ -1073,6 +1257,20 @@ distinct = (key class, directions crossing 256 / 65536 bytes) cells + session ke
                 rep.count("related_key_objects", 1);
             }
         }
+        if nkeys >= 100 {
+            // a handful of session keys come back again and again on this thread, in changing order
+            let pool: Vec<[u8; 40]> = (0..7).map(|_| rng.arr()).collect();
+            for visit in 0..(if nkeys >= 1000 { 60 } else { 12 }) {
+                let k = pool[match visit % 5 {
+                    0 => 0,
+                    1 => 1,
+                    2 => 0,
+                    _ => rng.below(7) as usize,
+                }];
+                wrath_connection(&mut rep, k, &mut rng, 200, 6);
+                rep.count("connections_with_a_session_key_seen_before_on_the_thread", 1);
+            }
+        }
         if sh % 16 == 5 && nkeys >= 1000 {
             let k = rng.arr::<40>();
             let (mut client, mut server) = objs::wrath_pair(k);
@@ -1123,6 +1321,51 @@ distinct = (key class, directions crossing 256 / 65536 bytes) cells + session ke
             let k = rng.arr::<40>();
             wrath_connection(&mut rep, k, &mut rng, 40 << 20, 3);
             rep.count("huge_connections_40MiB", 1);
+        }
+        if tier == "thorough" && sh == 62 {
+            // one single call with more than 2^31 bytes in each direction, then ordinary traffic
+            let k = rng.arr::<40>();
+            let (mut client, mut server) = objs::wrath_pair(k);
+            for (dir, cst) in [("c2s", &WRATH_S), ("s2c", &WRATH_R)] {
+                let mut m = wrath_model(cst, &k);
+                let n = (1usize << 31) + 4096 + rng.below(64) as usize;
+                let plain = rng.bytes(n);
+                let mut wire = plain.clone();
+                if dir == "c2s" {
+                    client.encrypt(&mut wire);
+                } else {
+                    server.encrypt(&mut wire);
+                }
+                let mut want = plain.clone();
+                m.xor(&mut want);
+                rep.ev(1);
+                if let Some(i) = first_diff(&wire, &want) {
+                    rep.violation(&format!("c09:wire_differs_from_rc4_drop1024:{}:single_call_above_2^31", dir), format!("byte {} of one {}-byte call differs from the model", i, n), format!("stream {} 0 {} {}", hex(&k), n, dir));
+                    break;
+                }
+                drop(want);
+                if dir == "c2s" {
+                    server.decrypt(&mut wire);
+                } else {
+                    client.decrypt(&mut wire);
+                }
+                if wire != plain {
+                    rep.violation(&format!("c09:receiver_does_not_recover_plaintext:{}:single_call_above_2^31", dir), format!("one decrypt call with {} bytes does not recover the plaintext", n), format!("stream {} 0 {} {}", hex(&k), n, dir));
+                    break;
+                }
+                drop(wire);
+                let more = rng.bytes(200);
+                let ps = rng.next();
+                let ok = if dir == "c2s" {
+                    wrath_dir(&mut rep, &k, &more, |c| client.encrypt(c), |c| server.decrypt(c), &mut m, ps, dir, n as u64, &|| false)
+                } else {
+                    wrath_dir(&mut rep, &k, &more, |c| server.encrypt(c), |c| client.decrypt(c), &mut m, ps, dir, n as u64, &|| false)
+                };
+                if !ok {
+                    break;
+                }
+                rep.count("single_calls_above_2^31_bytes", 1);
+            }
         }
         if tier == "thorough" && sh == 63 {
             // more than 2^32 bytes per direction on one connection (both directions > 4 GiB => ~9 GiB of traffic)
